@@ -30,3 +30,11 @@ Proof. exact inner_item_orig_silent. Qed.
 Check C06_solid_stream_unrepaired_refuted :
   exists bs, bs <> [] /\ inner_item_orig (S (length bs)) bs [] = Ok None /\ inner_item (S (length bs)) bs [] = Err UnexpectedEof.
 Print Assumptions C06_solid_stream_unrepaired_refuted.
+
+(* a clean end certifies the whole stream: byte for byte a sequence of well-formed chunks whose CRCs matched *)
+Theorem C06_solid_clean_end_certifies_stream :
+  forall fuel bs es, inner_entries_loop fuel bs = (es, FinOk) -> exists cs, bs = ser_chunks cs /\ Forall wf_chunk cs.
+Proof. exact inner_loop_ok_shape. Qed.
+Check C06_solid_clean_end_certifies_stream :
+  forall fuel bs es, inner_entries_loop fuel bs = (es, FinOk) -> exists cs, bs = ser_chunks cs /\ Forall wf_chunk cs.
+Print Assumptions C06_solid_clean_end_certifies_stream.
